@@ -468,6 +468,41 @@ func storeRewriteCase(r *Result, rng *rand.Rand, id int) {
 	}
 	r.Inc("rewrites_acknowledged", acked)
 	r.Inc("rewrites_refused", refused)
+	// blocks: more of them than the cache holds, then a late signature for an old one (read back, signed,
+	// saved again as ProcessSigPool does): the last block index and the newer blocks must not move
+	nb := cache*2 + rng.Intn(cache)
+	for i := 0; i < nb; i++ {
+		blk := hg.NewBlock(i, i+1, []byte(fmt.Sprintf("fh%d", i)), pl, [][]byte{[]byte(fmt.Sprintf("btx%d", i))}, nil, int64(1000+i))
+		if err := st.SetBlock(blk); err != nil {
+			what("SetBlock refused: %v", err)
+			return
+		}
+	}
+	for k := 0; k < 4; k++ {
+		old := rng.Intn(cache / 2)
+		blk, err := st.GetBlock(old)
+		if err != nil {
+			if badger {
+				what("GetBlock of an old block fails: %v", err)
+			}
+			continue
+		}
+		if sig, err := blk.Sign(parts[rng.Intn(nCreators)].key); err == nil {
+			blk.SetSignature(sig)
+		}
+		if err := st.SetBlock(blk); err != nil {
+			continue
+		}
+		r.Inc("late_signatures_on_old_blocks", 1)
+		if li := st.LastBlockIndex(); li != nb-1 {
+			what("LastBlockIndex is %d after a late signature was saved on block %d, it was %d", li, old, nb-1)
+			return
+		}
+		if last, err := st.GetBlock(nb - 1); err != nil || last.Index() != nb-1 || string(last.Transactions()[0]) != fmt.Sprintf("btx%d", nb-1) {
+			what("the last block changed after a late signature was saved on block %d", old)
+			return
+		}
+	}
 	if badger {
 		st.Close()
 		b, err := hg.NewBadgerStore(cache, dir, false, nil)
